@@ -503,6 +503,12 @@ impl<T: Eq + Hash> FrequentItemsSketch<T> {
             .map_err(insufficient_data("stream_weight"))?;
         let offset_val = cursor.read_u64_le().map_err(insufficient_data("offset"))?;
 
+        // every active item needs at least its 8-byte counter in the image
+        if active_items > cursor.remaining() / 8 {
+            return Err(Error::insufficient_data(format!(
+                "expected {active_items} weights, image too short"
+            )));
+        }
         let mut values = Vec::with_capacity(active_items);
         for i in 0..active_items {
             values.push(cursor.read_u64_le().map_err(|_| {
